@@ -161,11 +161,27 @@ Proof.
   apply step_keys_view in K. rewrite K. reflexivity.
 Qed.
 
-Lemma v_cts_send s e r T cur rbine s' :
-  step_cts_send s e r T cur rbine = Ok s' ->
-  (cur = maxts \/ rbine = true -> expire_ok (view_of s) r T) /\ view_of s' = vsent (view_of s) e.
+Lemma csl_lock_ms_In s r T k M : In (k, M) (csl_lock_ms s r T) ->
+  exists ks l, In (ECslReply r T ks (CslLocks l)) (s_csl s) /\ In (k, M) l.
 Proof.
-  unfold step_cts_send. intros H. chk1 H E1. chk1 H E2. ok_inv H. split; [|reflexivity].
+  unfold csl_lock_ms. intros J1. apply in_flat_map in J1. destruct J1 as [e1 [K1 K2]].
+  destruct e1; cbn [In] in K2; try contradiction.
+  destruct st; cbn [In] in K2; try contradiction.
+  destruct ((r0 =? r) && (s0 =? T)) eqn:Eb; cbn [In] in K2; try contradiction.
+  apply andb_true_iff in Eb. destruct Eb as [Eb1 Eb2].
+  apply N.eqb_eq in Eb1. apply N.eqb_eq in Eb2. subst. eauto.
+Qed.
+
+Lemma v_cts_send s e r T cur rbine fo s' :
+  step_cts_send s e r T cur rbine fo = Ok s' ->
+  (cur = maxts \/ rbine = true -> expire_ok (view_of s) r T) /\
+  (fo = true -> exists ks l k, In (ECslReply r T ks (CslLocks l)) (v_csl (view_of s)) /\ In (k, 0) l) /\
+  view_of s' = vsent (view_of s) e.
+Proof.
+  unfold step_cts_send. intros H. chk1 H E1. chk1 H E2. chk1 H E2f. ok_inv H. split; [| split; [| reflexivity]].
+  2: { intros ->. cbn [negb orb] in E2f. unfold nonasync_seen in E2f. apply existsb_exists in E2f.
+       destruct E2f as [[k M] [J1 J2]]. cbn [snd] in J2. apply N.eqb_eq in J2. subst M.
+       destruct (csl_lock_ms_In _ _ _ _ _ J1) as (ks & l & K1 & K2). exists ks, l, k. split; assumption. }
   intros Hc.
   assert (Hb : ((cur =? maxts) || rbine) = true).
   { destruct Hc as [Hc | Hc]; subst; [rewrite N.eqb_refl; reflexivity | apply orb_true_r]. }
@@ -272,6 +288,7 @@ Proof.
       apply andb_true_iff in I2. destruct I2 as [I2 I3].
       apply andb_true_iff in I2. destruct I2 as [I2 I4].
       apply andb_true_iff in I3. destruct I3 as [I3 I5].
+      apply andb_true_iff in I3. destruct I3 as [I3 I6].
       apply N.eqb_eq in I2. apply N.eqb_eq in I4. apply N.eqb_eq in I5. subst r0 s0.
       exists p, ttl, m, secs. split; [exact I1|].
       pose proof (fold_max_ge (map snd (filter (fun km => mem (fst km) secs) (csl_lock_ms s r T))) m) as [G1 G2].
@@ -282,13 +299,11 @@ Proof.
       assert (Hm : m' <= C).
       { apply G2. apply in_map_iff. exists (k, m'). split; [reflexivity|].
         apply filter_In. split; [exact J1|]. cbn [fst]. apply mem_In. exact Hk. }
-      unfold csl_lock_ms in J1. apply in_flat_map in J1. destruct J1 as [e1 [K1 K2]].
-      destruct e1; cbn [In] in K2; try contradiction.
-      destruct st; cbn [In] in K2; try contradiction.
-      destruct ((r0 =? r) && (s0 =? T)) eqn:Eb; cbn [In] in K2; try contradiction.
-      apply andb_true_iff in Eb. destruct Eb as [Eb1 Eb2].
-      apply N.eqb_eq in Eb1. apply N.eqb_eq in Eb2. subst.
-      exists ks, l, m'. split; [exact K1|]. split; [exact K2 | exact Hm].
+      assert (Hnz : m' <> 0).
+      { rewrite forallb_forall in I6. specialize (I6 (k, m')). cbn [snd] in I6. apply N.eqb_neq. apply negb_true_iff. apply I6.
+        apply filter_In. split; [exact J1|]. cbn [fst]. apply mem_In. exact Hk. }
+      destruct (csl_lock_ms_In _ _ _ _ _ J1) as (ks0 & l & K1 & K2).
+      exists ks0, l, m'. split; [exact K1|]. split; [exact K2 |]. split; [exact Hm | exact Hnz].
 Qed.
 
 Theorem stepr_vstep s e s' : stepr s e = Ok s' -> vstep (view_of s) e (view_of s').
